@@ -1081,7 +1081,6 @@ func syntacticallyNonNil(v ssa.Value) bool {
 	return false
 }
 
-
 // valueSource: one of the definitions a value used at some block can have come from, with
 // the block at whose end it was chosen (facts holding there hold for that alternative).
 type valueSource struct {
